@@ -329,6 +329,11 @@ func genGeometryStep(r *simrt.Rand, l latticeCfg, tols []float64) Step {
 	}
 }
 
+var commonSVG = []string{
+	"M0 0L10 0L10 10L0 10z",
+	"M0 0C2 4 6 4 8 0S14 -4 16 0L16 6Q8 10 0 6zM5 0A5 5 0 0 1 5 10A5 5 0 0 1 5 0zM20 0L25 0L25 5",
+}
+
 var sampleTexts = []string{
 	"Hello, world",
 	"The quick brown fox jumps over the lazy dog",
@@ -675,6 +680,18 @@ func GenRun(verifSeed uint64, run int, tier string, profiles []string) *RunSpec 
 			case "richtext":
 				if wl.Bool(0.3) {
 					st.Repeat = true
+				}
+			}
+			if st.Op == "measure" && simrt.Mix(seed, 0x5fa, uint64(t), uint64(s))%100 < 60 {
+				// neither call reaches a decision point or returns an object, so turning one into the
+				// other leaves the schedules of the run's other calls what they were
+				st = Step{Op: "svgpath", A: st.A, Opt: 30, W: 1}
+			}
+			if st.Op == "svgpath" {
+				// most of these calls parse one of a few strings that other calls of the run parse too
+				// (stream of its own, see below)
+				if x := simrt.Mix(seed, 0x5f9, uint64(t), uint64(s)); x%100 < 85 {
+					st.SVG = commonSVG[(x>>8)%uint64(len(commonSVG))]
 				}
 			}
 			if spec.Profile == "geometry1" {
